@@ -125,6 +125,15 @@ StepOK ==
   bad = {} \/ (PrintT(<<"FAILING", bad, c>>) /\ FALSE)
 AllSteps == [][StepOK]_vars
 
+\* ----- the design model refines the ownership protocol (Own.tla, whose invariant is proved
+\* inductively with Apalache): every explored transition is one Own step or a stuttering step
+OwnRef  == [h \in H |-> IF st.hs[h].k = "H" THEN st.hs[h].id ELSE 0]
+OwnRc   == [b \in B |-> st.bufs[b].rc]
+OwnLive == [b \in B |-> st.bufs[b].live]
+O == INSTANCE Own WITH H <- H, B <- B, ref <- OwnRef, rc <- OwnRc, live <- OwnLive, writes <- [b \in B |-> 0]
+Refines == [][O!Next \/ UNCHANGED <<OwnRef, OwnRc, OwnLive>>]_vars
+OwnInv == O!RcOK /\ O!LiveOK
+
 \* design-level invariants that are not observation predicates
 ModelTypeOK ==
   /\ \A h \in H : st.hs[h].k \in {"D", "I", "S", "H"}
